@@ -96,9 +96,23 @@ def check(run):
         for name, ok, site, what in sched.close_order_facts(run, cls):
             run.ob("C02.R6", "%s:%s:%s" % (M, cls.name, name), ok, site, what)
     run.floor("C02.R6", 4)
+    # R7 exit()/recur() work on the deque they are given: only `deeds is None` selects the scheduler's own .deeds, so that
+    # remove() with nothing to close (an empty deque) closes nothing
+    for cls in (doist, dodoer):
+        for name, (forms, site) in sorted(sched.own_selector_facts(run, cls).items()):
+            if not forms:
+                run.inconclusive_at("C02.R7", site, "%s.%s: the statement that falls back to self.deeds was not found" % (cls.name, name))
+                continue
+            ok = forms == ("is-none",)
+            run.ob("C02.R7", "%s:%s:%s" % (M, cls.name, name), ok, site,
+                   "" if ok else "%s.%s falls back to the scheduler's own .deeds on `%s`: an empty deque passed by remove()/enter() "
+                   "makes it close or run every doer of the scheduler" % (cls.name, name.split(".")[0], forms))
+    run.floor("C02.R7", 4)
 
 
 MUTANTS = [
+    Mutant("dodoer-exit-own-deeds-on-empty", M, "DoDoer.exit", "        if deeds is None:\n            deeds = self.deeds", "        if not deeds:\n            deeds = self.deeds", {"C02.R7"}),
+    Mutant("doist-exit-own-deeds-by-or", M, "Doist.exit", "        if deeds is None:\n            deeds = self.deeds\n", "        deeds = deeds or self.deeds\n", {"C02.R7"}),
     Mutant("doist-exit-popleft", M, "Doist.exit", "deeds.pop()", "deeds.popleft()", {"C02.R1"}, canary=True),
     Mutant("dodoer-enter-appendleft", M, "DoDoer.enter", "deeds.append((dog, self.tyme, doer))", "deeds.appendleft((dog, self.tyme, doer))", {"C02.R1"}),
     Mutant("dodoer-do-no-exit", M, "DoDoer.do", "            self.exit()  # equiv of doist.do finally clause", "            pass", {"C02.R2"}, canary=True),
